@@ -16,10 +16,31 @@ LEVEL_TEXT = ("Lean theorems about the model of ResolveStringReferencesMiddlewar
               "the string index and every non-entry block are unchanged (strings_untouched); the entry's metadata lists exactly "
               "the resolved field keys, and is absent when there are none (metadata_lists_resolved); entries inside failed blocks "
               "are not live and are not touched; composed with RemoveEnclosing the field holds the one-layer-stripped resolved "
-              "value (default_parse_value). Tied to interpolate.py / library.py / parsestack.py by differential execution.")
+              "value (default_parse_value). DOCUMENT LEVEL, through the whole default stack Pipeline.parseDefault (splitter, "
+              "Library.add, resolution, RemoveEnclosing in place, the Library(blocks) rebuilds), for EVERY text, in terms of the "
+              "splitter's blocks bs of the source only: default_parse_fields / default_parse_fields_map (every source entry that is "
+              "the first with its key is the live entry at its position, same type/key/lines/raw/field keys, and field i holds "
+              "stripEnclosing(resolvedSrc bs src): for a bare value that is case-sensitively the key of an @string block anywhere "
+              "in the document - before or after the use - the source value of the FIRST such block, else the value itself; "
+              "resolvedSrc_reference / resolvedSrc_enclosed / resolvedSrc_undefined, first_string_is_first), "
+              "default_parse_metadata (the source entry has no metadata; afterwards ResolveStringReferences -> keys of exactly the "
+              "reference fields in field order, absent when none, followed by RemoveEnclosing's dict), default_parse_strings (the "
+              "first @string with a key stays at its position with key/line/raw; the resolution stage leaves it exactly as it is; "
+              "the stack's enclosing removal then strips one layer of its value as of every value, C10), default_parse_dup_entry / "
+              "default_parse_dup_string (a later block with the same key is a duplicate-key block holding the duplicate EXACTLY as "
+              "split - not resolved, not stripped - and as previous_block the very block that is live at the first one's "
+              "position), default_parse_passive (duplicate-field blocks - inner entry not resolved, raw source values - failed "
+              "blocks, preambles, comments are returned exactly as split). Tied to interpolate.py / library.py / parsestack.py by "
+              "differential execution.")
 LEVEL_NOTE = ("Trusted: Lean kernel + 3 standard axioms; the hand-written models Interpolate.lean (incl. the small addAll index "
               "model), Enclosing.lean, Lex/Split.lean; the correspondence run. Warnings are not modelled. Aliasing of a duplicate-key "
-              "wrapper's previous_block with the live entry is modelled by applying the same function (compared on every case).")
+              "wrapper's previous_block with the live entry is modelled by applying the same function (compared on every case). "
+              "The document-level theorems additionally rest on the composition Pipeline.parseDefault (compared with the real "
+              "parse_string on every generated document of this module and of C01/C09) and on the C09 pipeline lemmas "
+              "(models_agree, readd_skeleton). Note the statement's 'unchanged' for @string blocks is about resolution; in the "
+              "default stack RemoveEnclosing strips their values too (default_parse_strings says exactly that). A concatenation "
+              "keeps its content unless the WHOLE value text is itself an @string key (e.g. @string{abc # abc = ..}): the "
+              "theorems quantify over that case as the code behaves.")
 TECHNIQUE = "Lean 4 proof: algebraic characterisation of pure list functions + fold invariant for the index; differential correspondence"
 RULE = ("corpus; every document of <= 3 items (quick; 4 sampled in thorough) over 6 @string definitions (brace/quote/int/bare value, "
         "other-case key, key 'abc # abc') and entries with keys e1/e2 whose field value is one of: bare defined key, other case, "
